@@ -1,12 +1,15 @@
 #!/usr/bin/env python3
 """seed_all.py [tier] - re-run every seeded change under /verif/seeded against the checks recorded in its meta.json
 (harness/seed_test.py does the work) and print which are caught.  Not part of any registered check; a regression test
-of the machinery itself (about 40 s per change)."""
+of the machinery itself (about 40 s per change; SEED_JOBS changes run at a time, default 4)."""
 import os, sys, json, glob, subprocess
 VERIF = os.path.dirname(os.path.dirname(os.path.abspath(__file__)))
 tier = sys.argv[1] if len(sys.argv) > 1 else "quick"
-missed = []
-for d in sorted(glob.glob(os.path.join(VERIF, "seeded", "*"))):
+from concurrent.futures import ThreadPoolExecutor
+jobs = int(os.environ.get("SEED_JOBS", "4"))
+
+
+def one(d):
     sid = os.path.basename(d)
     meta = json.load(open(os.path.join(d, "meta.json")))
     checks = sorted({k.split(":")[0] for k, r in meta.get("checks", {}).items() if r.get("violation_lines")}) or [meta["property"]]
@@ -15,8 +18,11 @@ for d in sorted(glob.glob(os.path.join(VERIF, "seeded", "*"))):
                        stdout=subprocess.PIPE, stderr=subprocess.STDOUT, text=True)
     lines = [l for l in p.stdout.splitlines() if l.startswith(sid)]
     ok = any("VIOLATION" in l for l in lines)
-    print(sid, "caught" if ok else "MISSED", "|", "; ".join(l[len(sid) + 1:][:90] for l in lines))
-    if not ok:
-        missed.append(sid)
+    print(sid, "caught" if ok else "MISSED", "|", "; ".join(l[len(sid) + 1:][:90] for l in lines), flush=True)
+    return None if ok else sid
+
+
+with ThreadPoolExecutor(jobs) as ex:
+    missed = [m for m in ex.map(one, sorted(glob.glob(os.path.join(VERIF, "seeded", "*")))) if m]
 print(f"{len(missed)} missed: {missed}")
 sys.exit(1 if missed else 0)
